@@ -65,7 +65,9 @@ def nonfresh_writer_sites(ctx):
     f, cg = ctx.facts, ctx.cg
     out = []
     for k, s in cg.callers_of(lambda n: n == 'basis::SharedValue::set_value'):
-        b = f.bodies[k]
+        b = f.bodies.get(k)
+        if b is None:
+            continue
         t = b.blocks[s['bb']]['term']
         if not fresh_receiver(b, t):
             out.append((b, s['bb']))
@@ -88,7 +90,9 @@ def rule_writers(ctx, rule='WRITERS'):
     allowed = {('basis::StandardBasis', 'set_value'), ('basis::StandardBasis', 'reset_value')}
     seen = set()
     for k, s in callers:
-        b = f.bodies[k]
+        b = f.bodies.get(k)
+        if b is None:
+            continue
         if fresh_receiver(b, b.blocks[s['bb']]['term']):
             rep.ok(rule, 'fresh-cell-write:%s' % b.path, where(b, s['bb']), 'writes a cell of a value created in this function (construction)')
             continue
@@ -114,15 +118,21 @@ def rule_writers(ctx, rule='WRITERS'):
     # 3. UnsafeCell accessor calls confined to SharedValue
     uc = cg.callers_of(lambda n: 'UnsafeCell::<T>::' in n and not n.endswith('::new'))
     for k, s in uc:
-        b = f.bodies[k]
+        b = f.bodies.get(k)
+        if b is None:
+            continue
         own = f.norm(b.impl_self_adt or '') == 'basis::SharedValue' and b.fn_name in ('get_value', 'set_value')
         good &= rep.check(own, rule, 'unsafecell-accessor:%s' % b.path, where(b, s['bb']),
                           'confined', 'UnsafeCell accessor used outside SharedValue::{get_value,set_value}')
     # 4. callers of Basis::set_value / set_sampled / reset_value
     def callers_of_basis(method):
-        return [(k, s) for k, s in cg.callers_of(lambda n: n.endswith('Basis>::' + method) or n == 'traits::Basis::' + method)]
+        # (keys of bodies analysed on demand — derived impls, cg.sites_for — are not call sites of the workspace's own functions)
+        return [(k, s) for k, s in cg.callers_of(lambda n: n.endswith('Basis>::' + method) or n == 'traits::Basis::' + method)
+                if k in f.bodies]
     for k, s in callers_of_basis('set_value'):
-        b = f.bodies[k]
+        b = f.bodies.get(k)
+        if b is None:
+            continue
         okc = f.norm(b.impl_self_adt or '') == 'basis::StandardBasis' and b.fn_name == 'set_sampled'
         # ... or the trait's own provided set_sampled (the body every implementor without an override gets)
         okc = okc or (b.fn_name == 'set_sampled' and not b.impl_self_adt and f.norm(b.path) == 'traits::Basis::set_sampled')
@@ -139,7 +149,9 @@ def rule_writers(ctx, rule='WRITERS'):
     for m in ('set_sampled', 'reset_value'):
         cs = callers_of_basis(m)
         for k, s in cs:
-            b = f.bodies[k]
+            b = f.bodies.get(k)
+            if b is None:
+                continue
             # a closure (or helper) whose blocks were spliced into the stepping function is part of it
             good &= rep.check(b.path == step or b.path in spliced, rule, 'caller-of-Basis::%s:%s' % (m, b.path), where(b, s['bb']),
                               'the stepping function', 'Basis::%s is called outside the optimiser\'s stepping function' % m)
@@ -161,11 +173,19 @@ def import_obligations(ctx, src_prop, rule_as, only_rules=None, prefix=None, flo
     import importlib
     from ..harness import Report
     rep = ctx.rep
+    if getattr(ctx, 'import_depth', 0) >= 1:
+        return 0            # imports are not transitive (and two properties may import clauses of each other)
     mod = importlib.import_module('pk.rules.' + src_prop)
     sub = type('Ctx', (), {})()
     sub.__dict__.update(ctx.__dict__)
     sub.rep = Report(src_prop, ctx.tier)
-    mod.run(sub)
+    sub.import_depth = getattr(ctx, 'import_depth', 0) + 1
+    cache = ctx.__dict__.setdefault('_import_cache', {})
+    if src_prop in cache:
+        sub.rep = cache[src_prop]
+    else:
+        mod.run(sub)
+        cache[src_prop] = sub.rep
     n = 0
     pre = prefix or (src_prop + ':')
     for o in sub.rep.obligations:
@@ -180,4 +200,132 @@ def import_obligations(ctx, src_prop, rule_as, only_rules=None, prefix=None, flo
             rep.fail(rule_as, pre + o['rule'] + '/' + o['instance'], o['construct'], o['why'], o['reason'])
     rep.floor(rule_as, 'obligations imported from %s%s' % (src_prop, (' ' + '/'.join(sorted(only_rules))) if only_rules else ''), n, floor)
     rep.analysed |= sub.rep.analysed
+    return n
+
+
+def builder_setters(ctx, rule, fields, floor=None):
+    """Setter fidelity of the optimiser's builder: every inherent method of the builder type that is named after one of `fields`
+    (optionally with a `with_` / `set_` prefix) and takes the value as its only argument writes exactly that field, with its
+    argument (or `Some(argument)` for an optional field), and nothing else.  A request made through the builder API otherwise
+    never reaches the optimiser (or reaches another setting)."""
+    from ..optmodel import build_families
+    from ..sym import SYM, SymEx, sfield
+    rep, f = ctx.rep, ctx.facts
+    fams, err, bb = build_families(f)
+    if not rep.check(bb is not None, rule, 'anchor:builder', 'optimisation', 'found', 'the builder (single function returning the optimiser) '
+                     'was not found: %s' % err, 'anchor-lost'):
+        return
+    adt = f.norm(bb.impl_self_adt or '')
+    info = f.adts.get(adt) or {}
+    fnames = [fl['name'] for fl in info.get('fields') or []]
+    n = 0
+    for b in f.bodies.values():
+        if b.is_closure or b.derived or b.impl_trait or f.norm(b.impl_self_adt or '') != adt or b.crate_kind != 'lib':
+            continue
+        nm = b.fn_name or ''
+        for pre in ('with_', 'set_'):
+            if nm.startswith(pre) and nm[len(pre):] in fnames:
+                nm = nm[len(pre):]
+        if nm not in fields or nm not in fnames or len(b.args()) != 2:
+            continue
+        n += 1
+        key = 'setter-writes-its-field:%s' % (b.fn_name,)
+        sx = SymEx(f)
+        try:
+            outs = sx.run(b, [SYM('self'), SYM('v')])
+        except Exception:      # noqa: BLE001
+            outs = []
+        if len(outs) != 1 or sx.aborted:
+            rep.fail(rule, key, where(b), 'the setter is not a single loop-free path', 'undecidable-shape')
+            continue
+        o = outs[0]
+        written = {}
+        by_ref = b.local_ty(1).lstrip().startswith('&')
+        if by_ref:
+            for e in o.effects:
+                tgt = e[0]
+                if isinstance(tgt, tuple) and tgt[0] == 'sym' and tgt[1].startswith('self.'):
+                    written[tgt[1][5:].split('.')[0].split('#')[0]] = sx.deep(o.st, e[1])
+        else:
+            r = sx.deep(o.st, o.ret)
+            if isinstance(r, tuple) and r[0] == 'struct':
+                for k, v in r[3]:
+                    if v != SYM('self.' + k):
+                        written[k] = v
+            elif r != SYM('self'):
+                rep.fail(rule, key, where(b), 'the by-value setter does not return the builder', 'undecidable-shape')
+                continue
+
+        def is_v(x):
+            if x == SYM('v'):
+                return True
+            return isinstance(x, tuple) and x[0] == 'struct' and x[2] is not None and x[2][0] == 'Some' and sfield(x, '0') == SYM('v')
+        ok = set(written) == {nm} and is_v(written[nm])
+        rep.check(ok, rule, key, where(b), 'writes self.%s := its argument and nothing else' % nm,
+                  'the setter `%s` writes %s: the value requested through the builder does not reach `%s`'
+                  % (b.fn_name, {k: repr(v)[:60] for k, v in written.items()} or 'nothing', nm))
+    rep.floor(rule, 'builder setters checked (%s)' % ', '.join(sorted(fields)), n, floor if floor is not None else len(fields))
+
+
+def named_argument_wiring(ctx, rule, bodies, min_sites=0, what='the caller'):
+    """Calls from `bodies` to workspace functions with two or more parameters of one type: an argument that is a plain named
+    local whose NAME is the name of one of the callee's parameters must sit in that parameter's position
+    (`from_trimer(radius, angle, distance)` for `fn from_trimer(radius, angle, distance)`).  A call where two such arguments sit
+    in each other's place hands the callee the right values under the wrong names."""
+    from ..mirutil import Tracer
+    rep, f = ctx.rep, ctx.facts
+    n = 0
+    for b in bodies:
+        tr = Tracer(b)
+        for bi, t in b.calls():
+            cb = f.body_of_fnconst(t['func']) if t['func'].get('k') == 'const' else None
+            if cb is not None and cb.is_closure:
+                continue
+            if cb is None:
+                # the coordinate constructors of nalgebra: (x, y)
+                nm0 = (t['func'].get('fn') or '') if t['func'].get('k') == 'const' else ''
+                if len(t['args']) == 2 and nm0.endswith('::new') and ('point_construction' in nm0 or 'translation_construction' in nm0 or
+                                                                      ('base::construction' in nm0 and 'nalgebra::U2, nalgebra::U1' in nm0)):
+                    params, ptys, cpath = ['x', 'y'], ['f64', 'f64'], 'nalgebra ' + nm0.split('<impl ')[-1][:40]
+                else:
+                    continue
+            else:
+                params = [cb.local_name(i) for i in cb.args()]
+                ptys = [cb.local_ty(i) for i in cb.args()]
+                cpath = cb.path
+            if len(params) < 2 or len(params) != len(t['args']):
+                continue
+            named = []
+            for ai, a in enumerate(t['args']):
+                if 'l' not in a:
+                    continue
+                # the first named local on the chain of plain copies that feeds the argument (a binding of a pattern such as
+                # `Shapes::Trimer { distance, angle, radius }` is a named local), else the field the value is read from
+                nm, x = None, a['l'] if not a['p'] else None
+                for _ in range(8):
+                    if x is None:
+                        break
+                    if b.local_name(x):
+                        nm = b.local_name(x)
+                        break
+                    ds = [d for d in tr.defs.of(x)]
+                    if len(ds) != 1 or ds[0][2] != 'assign' or ds[0][3]['r'] != 'use' or 'l' not in ds[0][3]['a']:
+                        break
+                    src = ds[0][3]['a']
+                    if src['p']:
+                        fl = [e for e in src['p'] if isinstance(e, dict) and 'f' in e]
+                        nm = fl[-1].get('n') if fl else None
+                        break
+                    x = src['l']
+                if nm and nm in params and nm != 'self':
+                    named.append((ai, nm))
+            if len(named) < 2:
+                continue
+            n += 1
+            wrong = [(ai, nm, params.index(nm)) for ai, nm in named if params.index(nm) != ai and ptys[params.index(nm)] == ptys[ai]]
+            rep.check(not wrong, rule, 'arguments-in-parameter-order:%s@%s' % (f.norm(cpath).split('::')[-1].split(' ')[0], b.fn_name or b.path),
+                      where(b, bi), '%s passes %s to %s by name and position' % (what, [x[1] for x in named], cpath),
+                      'the call of %s passes `%s` in the position of parameter `%s`: the callee receives the requested values under '
+                      'the wrong names' % (cpath, wrong[0][1] if wrong else '', params[wrong[0][0]] if wrong else ''))
+    rep.floor(rule, 'calls whose arguments are named like the callee\'s parameters', n, min_sites)
     return n
